@@ -40,3 +40,4 @@ INVARIANT DF_AffineExact_S
 INVARIANT DF_Integrate_S
 INVARIANT DF_SetSub_S
 INVARIANT DF_QueryPure_S
+INVARIANT DF_Relabel_S
